@@ -255,8 +255,21 @@ func (c *Ctx) modelConnGate(fn *ssa.Function) *connGate {
 				}
 			}
 			if ci.Pkg == "strings" && ci.Name == "Contains" {
-				// pattern operand: element of a range over a global []string
-				if gl := globalSliceBehind(cc.Args[1]); gl != nil {
+				// pattern operand: element of a range over a global []string …
+				gl := globalSliceBehind(cc.Args[1])
+				// … or the parameter of a predicate closure handed to slices.ContainsFunc / IndexFunc over that global
+				if prm, isP := cc.Args[1].(*ssa.Parameter); gl == nil && isP && f.Parent() != nil {
+					eachInstr(f.Parent(), func(pin ssa.Instruction) {
+						pc := getCall(pin)
+						if pc == nil || describeCall(pc).Pkg != "slices" || len(pc.Args) < 2 {
+							return
+						}
+						if mc, ok := pc.Args[1].(*ssa.MakeClosure); ok && mc.Fn == ssa.Value(f) && len(f.Params) > 0 && f.Params[0] == prm {
+							gl = globalSliceBehind(pc.Args[0])
+						}
+					})
+				}
+				if gl != nil {
 					if pats, ok := c.stringSliceGlobalLiteral(gl); ok {
 						g.Patterns = append(g.Patterns, pats...)
 					}
@@ -266,6 +279,9 @@ func (c *Ctx) modelConnGate(fn *ssa.Function) *connGate {
 				walk(sc, depth-1)
 			}
 		})
+		for _, a := range f.AnonFuncs {
+			walk(a, depth)
+		}
 	}
 	walk(fn, 3)
 	return g
